@@ -117,7 +117,7 @@ PeerSend(c, pkt) ==
   /\ UNCHANGED <<link, down, cl, dq, ackq, ackdue, tok, pubctx, sess, retained, cfg, closing, ghost>>
 
 PeerRecv(c, pkt) ==
-  /\ link[c] \in {"up", "gclosed"}
+  /\ link[c] \in {"up", "gclosed", "pclosed"}       \* (the scripted peer's reader drains what was in flight when the peer closed)
   /\ down[c] # <<>>
   /\ G("C20", "PeerReceivesWhatWasSent", Head(down[c]) = pkt)
   /\ down' = [down EXCEPT ![c] = Tail(@)]
